@@ -351,6 +351,8 @@ func runChild(what string) (failing bool, detail string) {
 
 // ---------------------------------------------------------------- run
 
+var ecmaRe = regexp.MustCompile(`^([0-9]{4}|[+-][0-9]{6})-([0-9]{2})-([0-9]{2})T([0-9]{2}):([0-9]{2}):([0-9]{2})\.([0-9]{3})(Z|[+-][0-9]{2}:[0-9]{2})$`)
+var rfcRe = regexp.MustCompile(`^([0-9]{4})-([0-9]{2})-([0-9]{2})T([0-9]{2}):([0-9]{2}):([0-9]{2})(Z|[+-][0-9]{2}:[0-9]{2})$`)
 var rfc8259Number = regexp.MustCompile(`^-?(0|[1-9][0-9]*)(\.[0-9]+)?([eE][+-]?[0-9]+)?$`)
 
 func run(c *hx.Ctx) error {
@@ -766,45 +768,61 @@ func specChecks(c *hx.Ctx, g *gen) error {
 		if err != nil {
 			return err
 		}
-		fields := func(t time.Time, ms bool) string {
-			_, off := t.Zone()
-			m := 0
-			if ms {
-				m = t.Nanosecond() / 1000000
+		// the reference reader: a regular expression for each format and the plain range rules
+		// (month 1-12, day 1-31, hour 0-23, minute/second 0-59, offset hours 0-23, minutes 0-59)
+		ref := func(re *regexp.Regexp, s string, hasMs bool) string {
+			m := re.FindStringSubmatch(s)
+			if m == nil {
+				return "err invalid"
 			}
-			return fmt.Sprintf("ok %d %d %d %d %d %d %d %d", t.Year(), int(t.Month()), t.Day(), t.Hour(), t.Minute(), t.Second(), m, off/60)
-		}
-		for i, s := range ds {
-			// ECMA-262: 4-digit years with milliseconds and offset (Go's layout accepts exactly that form
-			// when the fraction has 3 digits and the offset is Z or ±hh:mm); expanded years: compared by hand
-			want := "err invalid"
-			if t, err := time.Parse("2006-01-02T15:04:05.000Z07:00", s); err == nil && len(s) >= 24 && s[19] == '.' && (len(s) == 24 || len(s) == 29) && t.Year() <= 9999 {
-				want = fields(t, true)
-			} else if len(s) > 7 && (s[0] == '+' || s[0] == '-') {
-				if y, err := strconv.Atoi(s[1:7]); err == nil && !strings.ContainsAny(s[1:7], "+-") && !(s[0] == '-' && y == 0) {
-					if t, err := time.Parse("2006-01-02T15:04:05.000Z07:00", "2000"+s[7:]); err == nil && (len(s) == 27 || len(s) == 32) {
-						if s[0] == '-' {
-							y = -y
-						}
-						want = strings.Replace(fields(t, true), "ok 2000 ", fmt.Sprintf("ok %d ", y), 1)
-						if t.Month() == 2 && t.Day() == 29 {
-							want = ans[2*i] // leap day of another year: not compared
-						}
-					}
+			n := func(x string) int { v, _ := strconv.Atoi(x); return v }
+			y := n(strings.TrimLeft(m[1], "+-"))
+			if strings.HasPrefix(m[1], "-") {
+				if y == 0 {
+					return "err invalid"
+				}
+				y = -y
+			}
+			mo, d, h, mi, sc := n(m[2]), n(m[3]), n(m[4]), n(m[5]), n(m[6])
+			ms, z := 0, m[7]
+			if hasMs {
+				ms, z = n(m[7]), m[8]
+			}
+			off := 0
+			if z != "Z" {
+				oh, om := n(z[1:3]), n(z[4:6])
+				if oh > 23 || om > 59 {
+					return "err invalid"
+				}
+				off = oh*60 + om
+				if z[0] == '-' {
+					off = -off
 				}
 			}
+			if mo < 1 || mo > 12 || d < 1 || d > 31 || h > 23 || mi > 59 || sc > 59 {
+				return "err invalid"
+			}
+			return fmt.Sprintf("ok %d %d %d %d %d %d %d %d", y, mo, d, h, mi, sc, ms, off)
+		}
+		for i, s := range ds {
+			want := ref(ecmaRe, s, true)
 			if ans[2*i] != want {
-				res.AddBreak(proto.Break{Kind: "correspondence", Name: "Spec/DateTime.lean(ecma)-vs-time.Parse", Case: dl[2*i], Human: strconv.Quote(s), Impl: want, Model: ans[2*i]})
+				res.AddBreak(proto.Break{Kind: "correspondence", Name: "Spec/DateTime.lean(ecma)-vs-reference-reader", Case: dl[2*i], Human: strconv.Quote(s), Impl: want, Model: ans[2*i]})
 			}
-			res.SpecChecks["lean-ecma-date-parser-vs-time.Parse"]++
-			want = "err invalid"
-			if t, err := time.Parse(time.RFC3339, s); err == nil && (len(s) == 20 || len(s) == 25) && s[19] != '.' && s[19] != ',' {
-				want = fields(t, false)
+			if t, err := time.Parse("2006-01-02T15:04:05.000Z07:00", s); err == nil && want != "err invalid" && len(s) <= 29 {
+				// where Go's parser and the reference both accept, they agree on the instant
+				_, off := t.Zone()
+				if g := fmt.Sprintf("ok %d %d %d %d %d %d %d %d", t.Year(), int(t.Month()), t.Day(), t.Hour(), t.Minute(), t.Second(), t.Nanosecond()/1000000, off/60); g != want {
+					res.AddBreak(proto.Break{Kind: "correspondence", Name: "reference-date-reader-vs-time.Parse", Case: dl[2*i], Human: strconv.Quote(s), Impl: g, Model: want})
+				}
+				res.SpecChecks["ecma-date-reference-vs-time.Parse"]++
 			}
+			res.SpecChecks["lean-ecma-date-parser-vs-reference"]++
+			want = ref(rfcRe, s, false)
 			if ans[2*i+1] != want {
-				res.AddBreak(proto.Break{Kind: "correspondence", Name: "Spec/DateTime.lean(rfc3339)-vs-time.Parse", Case: dl[2*i+1], Human: strconv.Quote(s), Impl: want, Model: ans[2*i+1]})
+				res.AddBreak(proto.Break{Kind: "correspondence", Name: "Spec/DateTime.lean(rfc3339)-vs-reference-reader", Case: dl[2*i+1], Human: strconv.Quote(s), Impl: want, Model: ans[2*i+1]})
 			}
-			res.SpecChecks["lean-rfc3339-parser-vs-time.Parse"]++
+			res.SpecChecks["lean-rfc3339-parser-vs-reference"]++
 		}
 	}
 	// d. absStd against json.Marshal
